@@ -3,6 +3,7 @@ package props
 import (
 	"fmt"
 	"go/token"
+	"go/types"
 	"sort"
 	"strings"
 
@@ -304,7 +305,7 @@ func classifyCursor(p *core.Prog, h *ssa.BasicBlock, body map[*ssa.BasicBlock]bo
 				continue
 			}
 			x := p.X(c)
-			if !matches(`\(\*cryptobyte\.String\)\.(ReadUint(8|16|24|32|64)(LengthPrefixed)?|ReadBytes|Skip|ReadASN1.*)`, x.Name) {
+			if !matches(`\(\*cryptobyte\.String\)\.(ReadUint(8|16|24|32|64)(LengthPrefixed)?|ReadBytes|CopyBytes|Skip|ReadASN1.*)`, x.Name) {
 				// a module decoder that takes the cursor and consumes from it counts when its error leaves the loop
 				if x.Fn != nil && inModule(p, x.Fn) && len(c.Call.Args) >= 1 {
 					takes := false
@@ -325,6 +326,12 @@ func classifyCursor(p *core.Prog, h *ssa.BasicBlock, body map[*ssa.BasicBlock]bo
 			if x.Name == "(*cryptobyte.String).ReadBytes" || x.Name == "(*cryptobyte.String).Skip" {
 				n := x.Args[len(x.Args)-1]
 				if k, ok := n.ConstInt(); !ok || k < 1 {
+					continue
+				}
+			}
+			if x.Name == "(*cryptobyte.String).CopyBytes" {
+				// consumes len(buffer) octets: the buffer's length must be a known positive constant
+				if k, ok := constSliceLen(p, c.Call.Args[1]); !ok || k < 1 {
 					continue
 				}
 			}
@@ -393,12 +400,8 @@ func failureLeaves(c *ssa.Call, body map[*ssa.BasicBlock]bool) bool {
 // errorLeaves: the error result of the call is tested and the non-nil edge
 // leaves the loop.
 func errorLeaves(c *ssa.Call, body map[*ssa.BasicBlock]bool) bool {
-	for _, ref := range *c.Referrers() {
-		ex, ok := ref.(*ssa.Extract)
-		if !ok || ex.Type().String() != "error" {
-			continue
-		}
-		for _, r2 := range *ex.Referrers() {
+	test := func(v ssa.Value) bool {
+		for _, r2 := range *v.Referrers() {
 			bo, ok := r2.(*ssa.BinOp)
 			if !ok {
 				continue
@@ -414,6 +417,20 @@ func errorLeaves(c *ssa.Call, body map[*ssa.BasicBlock]bool) bool {
 					}
 				}
 			}
+		}
+		return false
+	}
+	if c.Type().String() == "error" {
+		// the error is the only result
+		return test(c)
+	}
+	for _, ref := range *c.Referrers() {
+		ex, ok := ref.(*ssa.Extract)
+		if !ok || ex.Type().String() != "error" {
+			continue
+		}
+		if test(ex) {
+			return true
 		}
 	}
 	return false
@@ -587,4 +604,24 @@ func classifyBudget(p *core.Prog, h *ssa.BasicBlock, body map[*ssa.BasicBlock]bo
 	}
 	sort.Strings(why)
 	return "budget", strings.Join(why, "; ")
+}
+
+// constSliceLen: the length of a slice made with a constant length.
+func constSliceLen(p *core.Prog, v ssa.Value) (int64, bool) {
+	switch b := v.(type) {
+	case *ssa.MakeSlice:
+		return p.X(b.Len).ConstInt()
+	case *ssa.Slice:
+		if al, ok := b.X.(*ssa.Alloc); ok && b.Low == nil {
+			if at, ok := al.Type().Underlying().(*types.Pointer).Elem().Underlying().(*types.Array); ok {
+				if b.High == nil {
+					return at.Len(), true
+				}
+				if k, ok := p.X(b.High).ConstInt(); ok && k <= at.Len() {
+					return k, true
+				}
+			}
+		}
+	}
+	return 0, false
 }
